@@ -14,7 +14,8 @@
 //!       lim     `/proc/<pid>/limits` stream with n limit lines (names/values from the seed); 0: none
 //!       alias   STACK CFI flavour of the modules that have symbols: 0 `x29:` only; 1 `fp:` and
 //!               `x29:` (aliases of one register) with different rules; 2 `fp:` + `x29: .undef`;
-//!               3 like 1 plus a delta record overriding `fp:`
+//!               3 like 1 plus a delta record overriding `fp:`; 4: an AMD64 dump instead (`$rbp:` … labels,
+//!               no register aliases on that architecture; code bytes at the crashing instruction)
 //!       mods    module list (ARM64 Linux dump); path = code_file; what the supplier answers
 //!       thr     one call chain per thread: module index of every frame, innermost first
 //!       sched   supplier schedules: per module the number of suspensions before it answers; the
@@ -79,6 +80,9 @@ struct RunCase {
     lim_seed: u64,
     alias: u32,
     mods: Vec<(String, Res)>,
+    /// per module: CodeView group — modules of one group carry the same PDB70 record (debug file,
+    /// debug id) and the same timestamp (hence code id) although their code files differ
+    cv: Vec<Option<u32>>,
     thr: Vec<Vec<usize>>,
     sched: Vec<Vec<u32>>,
     runs: u32,
@@ -137,8 +141,14 @@ fn parse_case(case: &str) -> Option<Case> {
             let (n, s) = field(f[4], "lim:")?.split_once('.')?;
             let alias: u32 = field(f[5], "alias:")?.parse().ok()?;
             let mut mods = vec![];
+            let mut cv = vec![];
             for m in field(f[6], "mods:")?.split(',') {
                 let (p, r) = m.rsplit_once('=')?;
+                let (r, g) = match r.split_once('@') {
+                    Some((r, g)) => (r, Some(g.parse::<u32>().ok().filter(|g| *g < 100)?)),
+                    None => (r, None),
+                };
+                cv.push(g);
                 let r = match r {
                     "ok" => Res::Ok,
                     "nf" => Res::Nf,
@@ -173,7 +183,7 @@ fn parse_case(case: &str) -> Option<Case> {
             }
             let rs: u64 = field(f[11], "rs:")?.parse().ok()?;
             let evil: u32 = field(f[12], "evil:")?.parse().ok()?;
-            if feat > 2 || alias > 3 || evil > 2 || mods.len() > 64 || thr.len() > 200 || sched.is_empty() || runs == 0 {
+            if feat > 2 || alias > 4 || evil > 2 || mods.len() > 64 || thr.len() > 200 || sched.is_empty() || runs == 0 {
                 return None;
             }
             Some(Case::Run(RunCase {
@@ -183,6 +193,7 @@ fn parse_case(case: &str) -> Option<Case> {
                 lim_seed: s.parse().ok()?,
                 alias,
                 mods,
+                cv,
                 thr,
                 sched,
                 runs,
@@ -271,7 +282,12 @@ fn render_run(c: &RunCase) -> String {
         c.lim_n,
         c.lim_seed,
         c.alias,
-        c.mods.iter().map(|(p, r)| format!("{p}={}", r.s())).collect::<Vec<_>>().join(","),
+        c.mods
+            .iter()
+            .zip(c.cv.iter())
+            .map(|((p, r), g)| format!("{p}={}{}", r.s(), g.map(|g| format!("@{g}")).unwrap_or_default()))
+            .collect::<Vec<_>>()
+            .join(","),
         c.thr
             .iter()
             .map(|t| t.iter().map(|m| m.to_string()).collect::<Vec<_>>().join("."))
@@ -395,6 +411,12 @@ fn symbol_text(c: &RunCase, i: usize) -> String {
         s.push_str(&format!("{a:x} 100 {} 0\n{:x} 100 {} 0\n", 10 + k, a + 0x100, 20 + k));
     }
     s.push_str(&format!("PUBLIC 8000 0 pub{i}\n"));
+    if c.alias == 4 {
+        s = s.replace("MODULE Linux arm64", "MODULE Linux x86_64");
+        s.push_str("STACK CFI INIT 1000 7000 .cfa: $rsp 32 + $r12: $rbx 1 + $rbp: .cfa -16 + ^ .ra: .cfa -8 + ^ $rbx: .cfa -32 + ^ $r14: .cfa $r13: .undef\n");
+        s.push_str("STACK CFI 2000 $r15: .cfa 8 - $r14: 5\n");
+        return s;
+    }
     let x29 = match c.alias {
         2 => "x29: .undef".to_string(),
         _ => "x29: .cfa -16 + ^".to_string(),
@@ -433,15 +455,54 @@ fn arm64_ctx(pc: u64, sp: u64, fp: u64, t: usize) -> Section {
     s
 }
 
+fn amd64_ctx(rip: u64, rsp: u64, rbp: u64, t: usize) -> Section {
+    let mut s = Section::with_endian(LE)
+        .append_repeated(0, 8 * 6)
+        .D32(0x10001f)
+        .D32(0)
+        .append_repeated(0, 2 * 6)
+        .D32(0)
+        .append_repeated(0, 8 * 6);
+    // rax rcx rdx rbx
+    s = s.D64(1).D64(2).D64(3).D64(0x10 + t as u64);
+    s = s.D64(rsp).D64(rbp);
+    // rsi rdi r8..r15
+    for r in 0..10u64 {
+        s = s.D64(0x1200 + r * 0x10 + t as u64);
+    }
+    s = s.D64(rip);
+    s.append_repeated(0, 512).append_repeated(0, 16 * 26).append_repeated(0, 8 * 6)
+}
+
 fn build_dump(c: &RunCase) -> Vec<u8> {
+    let amd64 = c.alias == 4;
     let mut dump = synth::SynthMinidump::with_endian(LE).add_system_info(
-        synth::SystemInfo::new(LE).set_processor_architecture(12).set_platform_id(0x8201),
+        synth::SystemInfo::new(LE).set_processor_architecture(if amd64 { 9 } else { 12 }).set_platform_id(0x8201),
     );
     for (i, (path, _)) in c.mods.iter().enumerate() {
         let name = synth::DumpString::new(path, LE);
-        dump = dump
-            .add_module(synth::Module::new(LE, mod_base(i), MOD_SIZE, &name, 0x5000_0000 + i as u32, 0, None))
-            .add(name);
+        match c.cv[i] {
+            None => {
+                dump = dump
+                    .add_module(synth::Module::new(LE, mod_base(i), MOD_SIZE, &name, 0x5000_0000 + i as u32, 0, None))
+                    .add(name);
+            }
+            Some(g) => {
+                // PDB70 record: same GUID, age and pdb name for the whole group
+                let cv = Section::with_endian(LE)
+                    .D32(0x5344_5352)
+                    .D32(0xabcd_0000 + g)
+                    .D16(0xf00d)
+                    .D16(0xbeef)
+                    .append_bytes(b"\x01\x02\x03\x04\x05\x06\x07\x08")
+                    .D32(1)
+                    .append_bytes(format!("grp{g}.pdb\0").as_bytes());
+                dump = dump
+                    .add_module(synth::Module::new(LE, mod_base(i), MOD_SIZE, &name, 0x6000_0000 + g, 0, None).cv_record(&cv))
+                    .add(name)
+                    .add(cv);
+            }
+        }
     }
     // unloaded modules: overlapping ranges, repeated names — every thread's outermost return address
     // lands in several of them (JSON `frames[*].unloaded_modules`: names and offsets)
@@ -469,7 +530,11 @@ fn build_dump(c: &RunCase) -> Vec<u8> {
         }
         stack = stack.append_repeated(0, 64);
         let mem = synth::Memory::with_section(stack, base);
-        let ctx = arm64_ctx(mod_base(chain[0]) + frame_off(0), base, base + 16, t);
+        let ctx = if amd64 {
+            amd64_ctx(mod_base(chain[0]) + frame_off(0), base, base + 16, t)
+        } else {
+            arm64_ctx(mod_base(chain[0]) + frame_off(0), base, base + 16, t)
+        };
         let thread = synth::Thread::new(LE, tid(t), &mem, &ctx);
         dump = dump.add_thread(thread).add(ctx).add_memory(mem);
         if t % 2 == 0 {
@@ -484,6 +549,20 @@ fn build_dump(c: &RunCase) -> Vec<u8> {
         .set_linux_proc_status(b"Name:\tverif\nPid:\t4242\n")
         .set_linux_lsb_release(b"DISTRIB_ID=Verif\nDISTRIB_RELEASE=1.0\nDISTRIB_CODENAME=det\nDISTRIB_DESCRIPTION=\"Verif 1.0\"\n")
         .set_linux_cpu_info(b"processor\t: 0\nmicrocode\t: 0x1e\n");
+    if amd64 {
+        // code at the first thread's instruction pointer: `mov rax, [rbx]` then nops (crash analysis
+        // disassembles it), and the process memory map
+        let code = Section::with_endian(LE).append_bytes(&[0x48, 0x8b, 0x03]).append_repeated(0x90, 29);
+        dump = dump.add_memory(synth::Memory::with_section(code, mod_base(c.thr[0][0]) + frame_off(0)));
+        let mut maps = String::new();
+        for (i, (path, _)) in c.mods.iter().enumerate() {
+            maps.push_str(&format!("{:x}-{:x} r-xp 00000000 08:01 {} {}\n", mod_base(i), mod_base(i) + MOD_SIZE as u64, 100 + i, path));
+        }
+        for t in 0..c.thr.len() {
+            maps.push_str(&format!("{:x}-{:x} rw-p 00000000 00:00 0 [stack:{}]\n", stack_base(t), stack_base(t) + 0x1000, tid(t)));
+        }
+        dump = dump.set_linux_maps(maps.as_bytes());
+    }
     if c.exc {
         let mut e = synth::Exception::new(LE);
         e.thread_id = tid(0);
@@ -1267,9 +1346,8 @@ fn extract(c: &RunCase, base: &RunOut) -> Result<Extract, String> {
         _ => (vec![], vec![]),
     };
     // ---- certificates: the table of the evil JSON (its iteration order inside `handle_evil` is not
-    //      observable: an arbitrary one is handed to the model) and the modules under exactly one
-    //      certificate; the multi-certificate modules are the known finding
-    let multi = multi_cert_leaves(c);
+    //      observable: an arbitrary one is handed to the model) and every module of the report,
+    //      dual-signed ones included
     let certs_in: Vec<String> = {
         let mut v: Vec<(String, Vec<String>)> = evil_certs(c).into_iter().collect();
         let mut rng = Rng::new(c.rs ^ 0xce27);
@@ -1283,9 +1361,6 @@ fn extract(c: &RunCase, base: &RunOut) -> Result<Extract, String> {
     if c.evil > 0 {
         for (pos, m) in jm.iter().enumerate() {
             let leaf = leaf_of(&c.mods[order[pos]].0);
-            if multi.contains(leaf) {
-                continue;
-            }
             cshown_in.push(hex(leaf.as_bytes()));
             cert_out.push(match m["cert_subject"].as_str() {
                 Some(s) => hex(s.as_bytes()),
@@ -1602,6 +1677,9 @@ fn exec_run(c: &RunCase) -> ImplResult {
     if cfi_frames > 0 {
         res.tags.push("has-cfi-frames".into());
     }
+    if c.cv.iter().any(|g| g.is_some()) {
+        res.tags.push("modules-sharing-debug-id".into());
+    }
     if !shared.is_empty() {
         res.tags.push(if shared_differ { "same-leaf-different-outcome".into() } else { "same-leaf-same-outcome".into() });
     }
@@ -1648,10 +1726,28 @@ fn gen_run(rng: &mut Rng, i: u64, tier: Tier) -> RunCase {
             mods.push((p.to_string(), r));
         }
     }
+    // a DLL and a renamed copy: same debug file / debug id / code id, different code files (and
+    // unique leaf names), same symbols
+    let cv_pair = i % 5 == 1;
+    let mut groups: Vec<Option<u32>> = vec![None; mods.len()];
+    if cv_pair {
+        let r = *rng.pick(&[Res::Ok, Res::Ok, Res::Ok, Res::Nf, Res::Pe]);
+        let g = rng.below(4) as u32;
+        for p in ["/opt/app/app.dll", "/opt/app/backup/app_copy.dll"] {
+            mods.push((p.to_string(), r));
+            groups.push(Some(g));
+        }
+        if mods.len() < 4 {
+            // two distinct gate modules are needed
+            mods.insert(0, ("/usr/lib/libgate.so".to_string(), Res::Ok));
+            groups.insert(0, None);
+        }
+    }
     // shuffle the module list
     for a in (1..mods.len()).rev() {
         let b = rng.below(a as u64 + 1) as usize;
         mods.swap(a, b);
+        groups.swap(a, b);
     }
     let nm = mods.len();
     // threads: several walking through the same modules; sometimes > 30 (join_all switches to
@@ -1667,12 +1763,43 @@ fn gen_run(rng: &mut Rng, i: u64, tier: Tier) -> RunCase {
         }
         thr.push(chain);
     }
+    let mut gates: Vec<usize> = vec![];
+    if cv_pair {
+        // the two copies are first requested by two different threads, each after a lookup of
+        // another ("gate") module; the gates are delayed differently per schedule
+        let copies: Vec<usize> = (0..nm).filter(|m| groups[*m].is_some()).collect();
+        let plain: Vec<usize> = (0..nm).filter(|m| groups[*m].is_none()).collect();
+        gates = vec![plain[0], plain[1 % plain.len()]];
+        for t in thr.iter_mut() {
+            for m in t.iter_mut() {
+                if groups[*m].is_some() {
+                    *m = gates[0];
+                }
+            }
+        }
+        let extra = rng.range(0, 2) as usize;
+        thr[0] = [vec![gates[0], copies[0]], (0..extra).map(|_| copies[0]).collect()].concat();
+        thr[1] = [vec![gates[1], copies[1]], (0..extra).map(|_| gates[1]).collect()].concat();
+    }
     // schedules
     let ns = if nt > 30 { 2 } else { rng.range(2, 4) as usize };
     let mut sched = vec![];
     for s in 0..ns {
         let tab: Vec<u32> = match s {
-            0 => (0..nm).map(|_| rng.below(3) as u32).collect(),
+            0 => {
+                let mut tab: Vec<u32> = (0..nm).map(|_| rng.below(3) as u32).collect();
+                if cv_pair && gates[0] != gates[1] {
+                    // (the second table is the mirror image 4 - d)
+                    tab[gates[0]] = if rng.chance(1, 2) { 0 } else { 3 };
+                    tab[gates[1]] = 3 - tab[gates[0]];
+                    for m in 0..nm {
+                        if groups[m].is_some() {
+                            tab[m] = 2;
+                        }
+                    }
+                }
+                tab
+            }
             // the reverse of the base order: who was fast is slow
             1 => {
                 let base: &Vec<u32> = &sched[0];
@@ -1693,7 +1820,14 @@ fn gen_run(rng: &mut Rng, i: u64, tier: Tier) -> RunCase {
         exc: i % 4 == 1,
         lim_n: if i % 10 == 9 { 0 } else { rng.range(8, 18) as u32 },
         lim_seed: rng.below(1 << 32),
-        alias: if i % 4 == 3 { 0 } else { 1 + (rng.below(3) as u32) },
+        cv: groups,
+        alias: if i % 8 == 7 {
+            4
+        } else if i % 4 == 3 {
+            0
+        } else {
+            1 + (rng.below(3) as u32)
+        },
         mods,
         thr,
         sched,
@@ -1981,6 +2115,7 @@ fn shrink_run(mut c: RunCase, still_fails: &dyn Fn(&str) -> bool) -> String {
             }
             let mut d = c.clone();
             d.mods.remove(m);
+            d.cv.remove(m);
             for t in d.thr.iter_mut() {
                 for x in t.iter_mut() {
                     if *x > m {
